@@ -213,9 +213,9 @@ theorem pad_inBounds (s before after : List Nat) (hb : before.length = s.length)
     (v : IxView) (hv : padView s (before ++ after) = some v) : v.InBounds :=
   C04.pad_inBounds s before after hb ha v hv
 
-theorem take_inBounds (s : Shape) (ind : List Int) (k : Nat) (hk : k < s.length)
-    (hind : ∀ e ∈ ind, 0 ≤ e ∧ e < (s[k] : Int)) (v : IxView)
-    (hv : takeView s ind (some (k : Int)) = some v) : v.InBounds := C04.take_inBounds s ind k hk hind v hv
+theorem take_inBounds (s : Shape) (ind : List Int) (axis : Int) (k : Nat) (hk : normalizeAxis1 axis s.length = some k)
+    (n : Nat) (hn : s[k]? = some n) (hind : ∀ e ∈ ind, -(n : Int) ≤ e ∧ e < (n : Int)) (v : IxView)
+    (hv : takeView s ind (some axis) = some v) : v.InBounds := C04.take_inBounds s ind axis k hk n hn hind v hv
 
 theorem takeNone_inBounds (s : Shape) (hs : Pos s) (ind : List Int) (v : IxView) (hv : takeView s ind none = some v) :
     v.InBounds := C04.takeNone_inBounds s hs ind v hv
@@ -243,16 +243,17 @@ theorem rollNone_inBounds (s : Shape) (hs : Pos s) (shift : Int)
     (v : IxView) (hv : rollNoneView s shift = some v) : v.InBounds := C04.rollNone_inBounds s hs shift v hv
 
 theorem rollAxes_inBounds (s : Shape) (shifts axes : List Int) (ks : List Nat) (hk : AxesNorm s.length axes ks)
-    (hlen : shifts.length = axes.length) (hnd : ks.Nodup)
+    (hlen : shifts.length = axes.length)
     (v : IxView) (hv : rollAxesView s shifts axes = some v) : v.InBounds :=
-  C04.rollAxes_inBounds s shifts axes ks hk hlen hnd v hv
+  C04.rollAxes_inBounds s shifts axes ks hk hlen v hv
 
 theorem resize_inBounds (s t : Shape) (hs : Pos s) (v : IxView) (hv : resizeView s t = some v) : v.InBounds :=
   C04.resize_inBounds s t hs v hv
 
-theorem compress_inBounds (s : Shape) (cond : List Int) (k : Nat) (hk : k < s.length) (hc : cond.length ≤ s[k])
-    (v : IxView) (hv : compressView s cond (some (k : Int)) = some v) : v.InBounds :=
-  C04.compress_inBounds s cond k hk hc v hv
+theorem compress_inBounds (s : Shape) (cond : List Int) (axis : Int) (k : Nat) (hk : normalizeAxis1 axis s.length = some k)
+    (n : Nat) (hn : s[k]? = some n) (hc : cond.length ≤ n)
+    (v : IxView) (hv : compressView s cond (some axis) = some v) : v.InBounds :=
+  C04.compress_inBounds s cond axis k hk n hn hc v hv
 
 theorem expand_inBounds (s : Shape) (axis : Int) (sp k : Nat) (hk : normalizeAxis1 axis s.length = some k)
     (v : IxView) (hv : expandView s [axis] [sp] = some v) : v.InBounds := C04.expand_inBounds s axis sp k hk v hv
@@ -280,10 +281,10 @@ theorem joinReshaped_inBounds (a b a' b' : Shape) (axis : Int) (ha : Pos a) (hb 
     (v : IxView2) (hv : joinReshaped a b a' b' axis = some v) : v.InBounds :=
   C04.joinReshaped_inBounds a b a' b' axis ha hb v hv
 
-/-- diagonal: only the 2-d, non-negative-offset case is proved by C04 (listed as partial there too) -/
-theorem diagonal2d_inBounds_partial (n1 n2 off : Nat) (h : off ≤ n2) (v : IxView)
-    (hv : diagonalView [n1, n2] (off : Int) 0 1 = some v) : v.InBounds :=
-  C04.diagonal2d_inBounds_partial n1 n2 off h v hv
+/-- diagonal: only the 2-d case (every offset) is proved by C04 (listed as partial there too) -/
+theorem diagonal2d_inBounds_partial (n1 n2 : Nat) (off : Int) (v : IxView)
+    (hv : diagonalView [n1, n2] off 0 1 = some v) : v.InBounds :=
+  C04.diagonal2d_inBounds_partial n1 n2 off v hv
 
 end C04
 
@@ -345,9 +346,9 @@ theorem reduce_inBounds (s : Shape) (hs : Pos s) (axis : Reduce.AxisArg) (keep :
     ∃ r, Reduce.reduceReads s axis keep j = some r ∧ ∀ i ∈ r, InShape i s :=
   C08.reduce_inBounds s hs axis keep hv j hj
 
-theorem accumulate_inBounds (s : Shape) (ax : Nat) (hax : ax < s.length) (d : Idx) (hd : InShape d s) :
-    ∃ r, Reduce.accumulateReads s (ax : Int) d = some r ∧ ∀ i ∈ r, InShape i s :=
-  C08.accumulate_inBounds s ax hax d hd
+theorem accumulate_inBounds (s : Shape) (axis : Int) (hax : Reduce.ValidAxis s.length axis) (d : Idx) (hd : InShape d s) :
+    ∃ r, Reduce.accumulateReads s axis d = some r ∧ ∀ i ∈ r, InShape i s :=
+  C08.accumulate_inBounds s axis hax d hd
 
 end C08
 
@@ -356,7 +357,7 @@ open NmVerif NmVerif.NN
 
 /-- pooling windows (incl. the clipped overhang of ceil mode) stay inside the input -/
 theorem pool_window_in_bounds (lead li : List Nat) (H W kh kw sh sw i j : Nat) (ceil : Bool)
-    (hH : PoolDom H kh sh ceil) (hW : PoolDom W kw sw ceil)
+    (hH : PoolDom H kh sh) (hW : PoolDom W kw sw)
     (hidx : InShape (li ++ [i, j]) (lead ++ [poolExtent H kh sh ceil, poolExtent W kw sw ceil]))
     (hli : InShape li lead) :
     ∃ win, poolWindow (lead ++ [H, W]) [kh, kw] [sh, sw] (li ++ [i, j]) = some win
@@ -386,7 +387,7 @@ theorem depth3_transpose_tile_reshape_in_buffer {α : Type} (s : Shape) (tgt : L
   have hrpos : Pos r.dst := by
     simp only [reshapeView, Option.map_eq_some_iff] at hr
     obtain ⟨q, hq, rfl⟩ := hr
-    exact pos_of_prod_pos q (by rw [shapeReshape_prod s tgt q hs hq]; exact prod_pos hs)
+    exact pos_of_prod_pos q (by rw [shapeReshape_prod s tgt q hq]; exact prod_pos hs)
   have htb := tile_inBounds r.dst reps t ht hrpos
   have hts : t.src = r.dst := by
     simp only [tileView, Option.some.injEq] at ht; subst ht; rfl
@@ -463,7 +464,9 @@ theorem shapeReshape_len_le_cap (src : Shape) (dst : List Int) (r : Shape) (cap 
     · cases h
     · split at h
       · cases h
-      · simp only [Option.some.injEq] at h; subst h; simpa using hc
+      · split at h
+        · cases h
+        · simp only [Option.some.injEq] at h; subst h; simpa using hc
 
 private theorem bcRev_length (a b r : List Nat) (h : bcRev a b = some r) : r.length = max a.length b.length := by
   induction a generalizing b r with
@@ -535,7 +538,7 @@ theorem shapeConcatenate_len_le_cap (a b : Shape) (axis : Int) (cap : Nat) (hc :
     (shapeConcatenate a b axis).2.length ≤ cap := by
   simp only [shapeConcatenate]
   split
-  · exact Nat.le_trans (shapeConcatLoop_length_le axis 0 a b) hc
+  · exact Nat.le_trans (shapeConcatLoop_length_le _ 0 a b) hc
   · simpa using hc
 
 theorem shapePad_len_le_cap (s widths r : List Nat) (cap : Nat) (h : shapePad s widths = some r)
